@@ -1524,6 +1524,82 @@ def run_C09(ctx):
         ctx.report('obligation:' + broken[0], f'proof obligation(s) no longer check: {broken[:5]}', {'broken': broken}, found=False)
 
 
+def run_C10(ctx):
+    import c10_oracle
+    broken = check_obligations(ctx, PROPS['C10']['theorems'])
+    gen = ctx.gen_info
+    for f in gen.get('failed', []):
+        ctx.notes.append('generator failure: ' + str(f)[:500])
+    obl = gen.get('c10_obligations', {})
+    failed = gen.get('c10_failed', [])
+    incon = json.load(open(os.path.join(VERIF, 'tools', 'c10_inconclusive.json')))['sites']
+    is_incon = lambda f: any(s['year'] == f.get('year') and s['class'] == f.get('class') and s['line'] == f.get('line') and s['kind'] == f.get('kind') for s in incon)
+    summary = {}
+    for y, d in sorted(obl.items()):
+        if not isinstance(d, dict):
+            continue
+        for t in d.get('theorems', []):
+            ctx.obligations.append({'name': f"Gen.C10_{y}.{t['id']}", 'ok': bool(t.get('status') == 'proved' and ctx.build_ok),
+                                    'check': f"{y} {t.get('kind')} {t.get('class', '')}: {t.get('patterns', '')} key patterns resolve in the catalogue"})
+        # the year theorem and its axioms, from the build log of the generated module
+        ax = lean_tools.axioms_from_log(ctx.build_log, f'HabuVerif/Gen/C10_{y}.lean')
+        name = f"HabuVerif.Gen.C10_{y}.{d.get('theorem')}"
+        extra = [a for a in ax.get(name, ['<no #print axioms line>']) if a not in lean_tools.ALLOWED_AXIOMS]
+        ctx.obligations.append({'name': name, 'ok': bool(not extra and ctx.build_ok), 'axioms': ax.get(name),
+                                'check': 'Resolves cat<year> (all lines)' if not d.get('bad') else f"ResolvesExcept … {d.get('bad')}"})
+        if extra:
+            broken.append(name)
+        summary[y] = {k: d.get(k) for k in ('lines', 'patterns', 'proved', 'failed', 'bad', 'absent', 'theorem')}
+    ctx.gen_info = {'per_year': summary, 'failed_ids': [f"{f.get('year')}:{f.get('id')}" for f in failed],
+                    'inconclusive_sites': [f"{s['year']} {s['class']}.{s['line']} ({s['kind']})" for s in incon]}
+    res = c10_oracle.run(ctx.seed, ctx.tier)
+    ctx.statement['c10-references'] = {
+        'checked': res['checked'], 'distinct_nontrivial': res['checked'], 'violations': len(res['violations']),
+        'static_cross_check': {y: {k: (len(v) if isinstance(v, list) else v) for k, v in d.items()} for y, d in res.get('static', {}).items()},
+        'distribution': res.get('distribution'),
+        'rule': '(a) independent static cross-check: string keys passed to v[...]/i[...]/threshold(...) in the Python AST of the form modules, f-strings expanded over the ranges in the source, against the real Form.fields()/inputs()/thresholds; (b) for every failing obligation a search for a real solve that reaches it; (c) random real solves: any abort by RecursionError / the solver\'s AssertionError / AttributeError / NameError / KeyError / ValueError(unpack) is a violation; one case = one reference checked or one solve',
+        'samples': res.get('samples', [])[:2]}
+    wit = {(w.get('year'), w.get('class'), w.get('line')): w for w in res.get('witnesses', []) if w.get('class')}
+    reported = 0
+    for f in failed:
+        fid = f"c10_{f.get('year')}_{f.get('class')}_{f.get('line')}_{f.get('kind')}"
+        w = wit.get((f.get('year'), f.get('class'), f.get('line')), {})
+        confirmed = str(w.get('status', '')).startswith('CONFIRMED')
+        if is_incon(f):
+            if confirmed:
+                ctx.report(fid, f"{f.get('year')} {f.get('class')}.{f.get('line')}: {json.dumps(f.get('witness'), default=str)[:200]}; {w.get('status')}",
+                           {'kind': 'scenario', 'case': (w.get('search') or {}).get('replay'), 'obligation': f.get('id')})
+                reported += 1
+            else:
+                ctx.notes.append(f"{fid}: analysis-inconclusive site (tools/c10_inconclusive.json), decided by the oracle: {w.get('status', 'no failing input')}")
+                for o in ctx.obligations:
+                    if o['name'].endswith('.' + str(f.get('id'))) or (f.get('kind') == 'scan' and o['name'] == f"Gen.C10_{f.get('year')}.s_{f.get('class')}"):
+                        o['ok'] = ctx.build_ok
+                        o['note'] = 'analysis-inconclusive site (reviewed list); the negation of the syntactic check is proved, the property is decided by the oracle here'
+            continue
+        what = f"{f.get('year')} {f.get('class')}.{f.get('line')} ({f.get('kind')}): {json.dumps(f.get('witness'), default=str)[:300]}"
+        rep = {'obligation': f.get('id'), 'witness': f.get('witness')}
+        if confirmed and (w.get('search') or {}).get('replay'):
+            rep = dict(rep, kind='scenario', case=w['search']['replay'])
+            what += '; ' + str(w.get('status'))
+        known = ctx.matches_known(fid) is not None
+        ctx.report(fid, what, rep, found=confirmed or known)
+        reported += 1
+    for v in res['violations']:
+        key = f"{v['key']}@{v.get('where', '')}"
+        rp = v.get('replay')
+        ctx.report(key, v['what'], {'kind': 'scenario', 'case': rp} if isinstance(rp, dict) else {'oracle': {k: v[k] for k in v if k != 'replay'}})
+        reported += 1
+    for y, d in res.get('static', {}).items():
+        for u in d.get('static_only', []):
+            ctx.report(f'c10_{y}_static_only_{u}', f'{y}: the AST cross-check finds an unresolved reference the Lean analysis does not report: {u}', {'static_only': u}, found=False)
+            reported += 1
+    if not ctx.build_ok and not reported:
+        ctx.report('obligation:build', 'generated obligations no longer build (Python mirror and Lean analysis disagree, or the model changed)', {'log': ctx.build_log[-2000:]}, found=False)
+    elif broken and not reported:
+        ctx.report('obligation:' + broken[0], f'proof obligation(s) no longer check: {broken[:5]}', {'broken': broken}, found=False)
+
+
 def run_C16(ctx):
     import tax_oracles as to
     import scenarios as sc
@@ -1618,6 +1694,12 @@ PROPS = {
         'gate_blocks_form', 'gate_blocks_line', 'gate_read_blocks']],
         assumptions=['the reviewed gate list tools/c09_gates.json (which inputs declare an unsupported situation, and by which answer) is the specification; it is compared on every run with a syntactic survey of all guards of not_implemented() calls in the regenerated programs',
                      'PARTIAL: for 10-12 gates per year the abstract interpretation is inconclusive (value reaches the guard through another line, float limits, another reader legitimately returns); these are decided by the oracle on real solves only; completeness of the reader list per gate is by syntactic scan, not proved']),
+    'C10': dict(run=run_C10, theorems=['HabuVerif.C10.checked_year_never_aborts_on_dangling_names', 'HabuVerif.C10.obligations_exclude_dangling_aborts',
+        'HabuVerif.C10.good_excludes', 'HabuVerif.solve_abort_good', 'HabuVerif.Dsl.eval_reads_in_refs', 'HabuVerif.Dsl.cat_reads_in_refs',
+        'HabuVerif.Dsl.c10_of_obligations', 'HabuVerif.Dsl.yearOK_sound', 'HabuVerif.Dsl.C10Example.typo_not_resolves'],
+        assumptions=['the list of deliberately absent forms (tools/c10_absent_forms.json: 1099-oid, 1040_s2, each with the evidence that the solve aborts saying the form is not supported) is reviewed, not derived',
+                     'PARTIAL: threshold names, enumeration members, helpers and attribute resolutions are checked by structural scans over the regenerated programs (no failed attribute resolution, no unsupported construct, threshold names are constants of the table) that are NOT connected to a semantic theorem; one site per tree (2023 Form 1040 line 27: threshold name computed from an input) is analysis-inconclusive and decided by the oracle only',
+                     'the abort kind specFuel (more than 64 chained input-only loads in one attempt; Python: recursion limit) is a bound of the model, not excluded by the theorem; Field.form(name) on a form that is not loaded (KeyError) is outside Resolves, see known findings']),
     'C15': dict(run=run_C15, theorems=['HabuVerif.C15.' + t for t in [
         'shapes_2021', 'shapes_2022', 'shapes_2023', 'overpayment_and_amount_owed', 'refund_and_applied',
         'solved_return_balances', 'stored_money_is_cent_valued', 'over_owed', 'refund_split']],
